@@ -132,7 +132,7 @@ Proof.
     destruct (load rt x) as [d|e| |]; cbn [bind done] in *; try discriminate Hd; try apply ev_const.
     destruct (itervalues rt d) as [vs|e| |]; cbn [bind done] in *; try discriminate Hd; try apply ev_const.
     apply ev_bind; [|intros rs _; apply ev_const|exact Hd].
-    apply mapM_ev; [intros v _ Hv; apply IH; assumption|].
+    apply mapM_ev; [intros v _ Hv; apply ev_elem_conv; [intros Hv'; apply IH; assumption|exact Hv]|].
     destruct (bind_done _ _ Hd) as [[rs [Hrs _]]|[e He]]; [rewrite Hrs|rewrite He]; reflexivity.
   - (* TMap *) apply andb_true_iff in Hok. destruct Hok as [Hok1 Hok2].
     apply ev_S. eapply ev_ext; [intros m; apply unm_S|]. cbv beta iota. unfold map_body in *.
@@ -141,7 +141,7 @@ Proof.
     destruct (iteritems rt E d) as [kvs|e| |]; cbn [bind done] in *; try discriminate Hd; try apply ev_const.
     apply ev_bind; [|intros rs _; apply ev_const|exact Hd].
     apply mapM_ev.
-    + intros kv _ Hkv. apply ev_bind; [| |exact Hkv].
+    + intros kv _ Hkh. apply ev_hashing; [|exact Hkh]. clear Hkh. intros Hkv. cbv beta in Hkv |- *. apply ev_bind; [| |exact Hkv].
       * apply IH; [assumption|]. destruct (bind_done _ _ Hkv) as [[k' [Hk _]]|[e He]]; [rewrite Hk|rewrite He]; reflexivity.
       * intros k' Hk'. rewrite Hk' in Hkv. cbn [bind] in Hkv. apply ev_bind; [|intros v' _; apply ev_const|exact Hkv].
         apply IH; [assumption|]. destruct (bind_done _ _ Hkv) as [[v' [Hv _]]|[e He]]; [rewrite Hv|rewrite He]; reflexivity.
@@ -241,7 +241,7 @@ Proof.
     destruct (iteritems rt E x) as [kvs|e| |]; cbn [bind done] in *; try discriminate Hd; try apply ev_const.
     apply ev_bind; [|intros rs _; apply ev_const|exact Hd].
     apply mapM_ev.
-    + intros kv _ Hkv. apply ev_bind; [| |exact Hkv].
+    + intros kv _ Hkh. apply ev_hashing; [|exact Hkh]. clear Hkh. intros Hkv. cbv beta in Hkv |- *. apply ev_bind; [| |exact Hkv].
       * apply IH; [assumption|]. destruct (bind_done _ _ Hkv) as [[k' [Hk _]]|[e He]]; [rewrite Hk|rewrite He]; reflexivity.
       * intros k' Hk'. rewrite Hk' in Hkv. cbn [bind] in Hkv. apply ev_bind; [|intros v' _; apply ev_const|exact Hkv].
         apply IH; [assumption|]. destruct (bind_done _ _ Hkv) as [[v' [Hv _]]|[e He]]; [rewrite Hv|rewrite He]; reflexivity.
@@ -344,7 +344,7 @@ Proof.
     destruct (load rt x) as [d|e| |]; cbn [bind done] in *; try discriminate Hd; try (exists 0; reflexivity).
     destruct (itervalues rt d) as [vs|e| |]; cbn [bind done] in *; try discriminate Hd; try (exists 0; reflexivity).
     apply ev_bind; [|intros rs _; apply ev_const|exact Hd].
-    apply mapM_ev; [intros v _ Hv; apply IH; assumption|].
+    apply mapM_ev; [intros v _ Hv; apply ev_elem_conv; [intros Hv'; apply IH; assumption|exact Hv]|].
     destruct (bind_done _ _ Hd) as [[rs [Hrs _]]|[e He]]; [rewrite Hrs|rewrite He]; reflexivity.
   - (* TMap *) apply andb_true_iff in Hok. destruct Hok as [Hok1 Hok2]. unfold map_body in *.
     destruct (load rt x) as [d|e| |]; cbn [bind done] in *; try discriminate Hd; try (exists 0; reflexivity).
@@ -352,7 +352,7 @@ Proof.
     destruct (iteritems rt E d) as [kvs|e| |]; cbn [bind done] in *; try discriminate Hd; try (exists 0; reflexivity).
     apply ev_bind; [|intros rs _; apply ev_const|exact Hd].
     apply mapM_ev.
-    + intros kv _ Hkv. apply ev_bind; [| |exact Hkv].
+    + intros kv _ Hkh. apply ev_hashing; [|exact Hkh]. clear Hkh. intros Hkv. cbv beta in Hkv |- *. apply ev_bind; [| |exact Hkv].
       * apply IH; [assumption|]. destruct (bind_done _ _ Hkv) as [[k' [Hk _]]|[e He]]; [rewrite Hk|rewrite He]; reflexivity.
       * intros k' Hk'. rewrite Hk' in Hkv. cbn [bind] in Hkv. apply ev_bind; [|intros v' _; apply ev_const|exact Hkv].
         apply IH; [assumption|]. destruct (bind_done _ _ Hkv) as [[v' [Hv _]]|[e He]]; [rewrite Hv|rewrite He]; reflexivity.
@@ -461,7 +461,7 @@ Proof.
     destruct (iteritems rt E x) as [kvs|e| |]; cbn [bind done] in *; try discriminate Hd; try (exists 0; reflexivity).
     apply ev_bind; [|intros rs _; apply ev_const|exact Hd].
     apply mapM_ev.
-    + intros kv _ Hkv. apply ev_bind; [| |exact Hkv].
+    + intros kv _ Hkh. apply ev_hashing; [|exact Hkh]. clear Hkh. intros Hkv. cbv beta in Hkv |- *. apply ev_bind; [| |exact Hkv].
       * apply IH; [assumption|]. destruct (bind_done _ _ Hkv) as [[k' [Hk _]]|[e He]]; [rewrite Hk|rewrite He]; reflexivity.
       * intros k' Hk'. rewrite Hk' in Hkv. cbn [bind] in Hkv. apply ev_bind; [|intros v' _; apply ev_const|exact Hkv].
         apply IH; [assumption|]. destruct (bind_done _ _ Hkv) as [[v' [Hv _]]|[e He]]; [rewrite Hv|rewrite He]; reflexivity.
